@@ -12,7 +12,10 @@ receive port) must invoke exactly the *enabled* responders
 * whose src (host, port|None) equals the sender,
 * whose recv_port (if any) equals the port the message arrived on,
 * whose argument template accepts the arguments by position (None = any; a
-  position the message does not have is not accepted),
+  position the message does not have is not accepted; a template that is not
+  a list stands for the one-element list; an item {'pred': name} stands for
+  the user function PREDS[name], which accepts an argument iff it returns
+  True for it),
 
 each once, with [address, *args], the time, the sender and the port.
 
@@ -37,6 +40,19 @@ that does not change anything in what has to happen.
 from mc.oracles import oscpattern
 
 
+def _num(x):
+    return isinstance(x, (int, float)) and not isinstance(x, bool)
+
+
+# user functions that may stand in an argument template (test inputs, total
+# on every argument value, return a bool)
+PREDS = {
+    'odd': lambda x: _num(x) and x % 2 == 1,
+    'pos': lambda x: _num(x) and x > 0,
+    'never': lambda x: False,
+}
+
+
 class Responder:
     def __init__(self, rid, path, matching, src, recv_port, tmpl, rank):
         self.rid = rid
@@ -53,6 +69,11 @@ class Responder:
         self.changes = 1            # life-cycle changes (creation = 1)
         self.shared = False         # still has the function object it shares
         self.kills = None           # None | [rid of the target, 'free'|'disable']
+        self.permanent = False      # persists beyond CmdPeriod
+        self.perm_declared = None   # state in which it was declared permanent
+        self.survived = 0           # CmdPeriods it had to survive
+        self.survived_dd = False    # ... one of them after having been
+        #                             declared permanent while disabled
 
 
 class Model:
@@ -114,12 +135,27 @@ class Model:
         return x.matching == y.matching and x.created < y.created and \
             x.enabled_at < y.enabled_at
 
+    def set_permanent(self, i, value):
+        """A permanent responder persists beyond CmdPeriod, whether it was
+        enabled or disabled when it was declared permanent."""
+        self.rs[i].permanent = bool(value)
+        self.rs[i].perm_declared = self.rs[i].state if value else None
+        if not value:
+            self.rs[i].survived = 0
+
     def cmd_period(self):
-        """Responders do not persist beyond CmdPeriod.  What becomes of a
+        """Responders do not persist beyond CmdPeriod unless they are
+        permanent.  What becomes of a
         responder that was disabled at that moment is not decided by the
         statement; the model retires it (no further operations are offered)
         and it must simply stay silent, as any disabled responder."""
         for r in self.rs:
+            if r.permanent:
+                if r.state in ('enabled', 'disabled'):
+                    r.survived += 1
+                    if r.perm_declared == 'disabled':
+                        r.survived_dd = True
+                continue
             if r.state in ('enabled', 'disabled'):
                 r.state = 'freed'
                 r.changes += 1
@@ -144,10 +180,16 @@ class Model:
         if r.recv_port is not None and r.recv_port != port:
             return False
         if r.tmpl is not None:
-            for i, item in enumerate(r.tmpl):
+            tmpl = r.tmpl if isinstance(r.tmpl, list) else [r.tmpl]
+            for i, item in enumerate(tmpl):
                 if item is None:
                     continue
-                if i >= len(args) or args[i] != item:
+                if i >= len(args):
+                    return False
+                if isinstance(item, dict):
+                    if PREDS[item['pred']](args[i]) is not True:
+                        return False
+                elif args[i] != item:
                     return False
         return True
 
@@ -207,7 +249,11 @@ class Model:
         return [[r.path, r.matching, r.src, r.recv_port, r.tmpl, r.state,
                  r.oneshot, r.ver, rk[r.created], rk[r.enabled_at]] +
                 ([['shared', r.shared], ['kills', r.kills]]
-                 if r.shared or r.kills else [])
+                 if r.shared or r.kills else []) +
+                ([['permanent', r.perm_declared, min(r.survived, 1)]]
+                 if r.permanent else []) +
+                (['survived-declared-while-disabled'] if r.survived_dd
+                 else [])
                 for r in self.rs]
 
     def nontrivial(self):
@@ -273,6 +319,27 @@ def selftest():
     m.free(2)
     m.cmd_period()
     assert ids('/a', [1], A) == [] and not m.live(0)
+    # templates: scalar, wildcard, user function, falsy value
+    t = Model()
+    t.create('/a', False, None, None, 1)                        # 0
+    t.create('/a', False, None, None, [None, 2])                # 1
+    t.create('/a', False, None, None, [{'pred': 'odd'}])        # 2
+    t.create('/a', False, None, None, [0])                      # 3
+    t.create('/a', False, ['127.0.0.2', None], None, [])        # 4
+
+    def tids(args, snd=A):
+        return [f['rid'] for f in t.deliver('/a', args, snd, 57120)]
+    assert tids([1]) == [0, 2] and tids([1, 2]) == [0, 1, 2]
+    assert tids([0]) == [3] and tids([0, 2]) == [1, 3] and tids([]) == []
+    assert tids(['x']) == [] and tids([3, 2]) == [1, 2]
+    assert tids([7], ['127.0.0.2', 57200]) == [2, 4]
+    # permanent responders persist beyond CmdPeriod
+    t.set_permanent(2, True)
+    t.cmd_period()
+    assert tids([1]) == [2] and t.live(2) and not t.live(0)
+    t.set_permanent(2, False)
+    t.cmd_period()
+    assert tids([1]) == []
     # a callback that frees / disables another responder
     k = Model()
     for _ in range(3):
